@@ -69,7 +69,7 @@ impl NanBox {
     /// If the value is a string, this value represents the length of the string, in
     /// bytes. If the value is an array, this value represents the number of
     /// elements in the array.
-    const VALUE_LENGTH_SIZE: u8 = Self::VALUE_SIZE - Self::VALUE_ENCODING_SIZE;
+    const VALUE_LENGTH_SIZE: u8 = 14;
     /// The maximum number that can be encoed in the number of bits reserved for
     /// [`Self::VALUE_LENGTH_SIZE`].
     /// This is (2^14) - 1.
